@@ -17,7 +17,8 @@ for p in props:
             "replay_cmd_template": "bin/goatsym replay {path}",
             "engine": "goatsym",
             "level_claimed": {"category": "model_checking", "text": m['level_text'], "design_ref": m.get('design_ref', 'DESIGN.md section 5 ' + pid)},
-            "level_note": m['level_note'],
+            # trusted-base text from the meta file + the bounds text of the registered jobs (kept in one place)
+            "level_note": m['level_note'].split(" Bounds:")[0] + " Bounds: " + specs[pid]['bounds'] + ("; assumptions: " + "; ".join(specs[pid].get('assumptions', [])) if specs[pid].get('assumptions') else ""),
             "technique": m.get('technique', "bounded symbolic execution of the real Go SSA (own engine goatsym), SMT-decided (z3/cvc5) path conditions and assertions, symbolic scheduler"),
         }
         if specs[pid].get('thorough'):
